@@ -16,6 +16,7 @@ import Qsx.Model.Session
 import Qsx.Model.Log
 import Qsx.Model.Ratio
 import Qsx.Model.Symtab
+import Qsx.Model.LpLex
 open Qsx
 
 def hexVal (c : Char) : Option Nat :=
@@ -286,6 +287,56 @@ def symtabSession : P (List String) := do
       out := out ++ [s!"reset {rc}"]
     else failure
     out := out ++ symtabDump t
+  pure out
+
+
+/-- `lplex <hex bytes|-> <n> op*n` with the ops of harness/qsx_lplex.c (without the `lx` prefix): one answer line per op,
+`lx rc eof line_num p field firstCol sense bound [extra]`; `lx OOB` when the model read behind the string terminator -/
+def lplexSession : P (List String) := do
+  let hexb ← pTok
+  let bytes ← (unhex hexb : Option (List Char))
+  let n ← pNat
+  let fmtB : Qsx.LpLex.Bnd → String
+    | .val q => ratToStr q
+    | .pinf => "inf"
+    | .ninf => "-inf"
+  let show_ (s : Qsx.LpLex.St) (rc : Int) (extra : String) : String :=
+    s!"lx {rc} {if s.eof then 1 else 0} {s.lineNum} {s.p} {if s.field.isEmpty then "00" else hexStr (String.ofList s.field)} {if s.firstCol then 1 else 0} {s.sense.toNat} {fmtB s.bound}{extra}"
+  let words : P (List (List Char)) := do
+    let k ← pNat
+    let ws ← pMany k (do let t ← pTok; (unhex t : Option (List Char)))
+    pure ws.toList
+  match Qsx.LpLex.init (Qsx.LpLex.chunks (Qsx.Gen.namebufsize - 2) bytes) with
+  | none => pure ["lx OOB"]
+  | some s0 =>
+  let mut s := s0
+  let mut out : List String := [show_ s0 0 ""]
+  let mut dead := false
+  for _ in [0:n] do
+    let op ← pTok
+    let r : Option (Qsx.LpLex.St × Int × String) ←
+      (match op with
+      | "nf" => pure ((Qsx.LpLex.nextField s true).map fun (a, r) => (a, r, ""))
+      | "nfl" => pure ((Qsx.LpLex.nextField s false).map fun (a, r) => (a, r, ""))
+      | "pf" => pure ((Qsx.LpLex.prevField s).map fun a => (a, 0, ""))
+      | "nv" => pure ((Qsx.LpLex.nextVar s).map fun (a, r) => (a, r, ""))
+      | "tkw" => do let w ← words; pure (some (s, Qsx.LpLex.testKeyword s w, ""))
+      | "kw" => do let w ← words; pure ((Qsx.LpLex.keyword s w).map fun (a, r) => (a, r, ""))
+      | "colon" => pure ((Qsx.LpLex.colon s).map fun (a, r) => (a, r, ""))
+      | "hc" => pure ((Qsx.LpLex.hasColon s).map fun (a, r) => (a, r, ""))
+      | "nc" => pure ((Qsx.LpLex.nextConstraint s).map fun (a, r) => (a, r, ""))
+      | "sign" => pure ((Qsx.LpLex.sign s).map fun (a, r, sg) => (a, r, s!" {sg}"))
+      | "nis" => do let t ← pTok; let w ← (unhex t : Option (List Char)); pure ((Qsx.LpLex.testNextIs s w).map fun (a, r) => (a, r, ""))
+      | "val" => pure ((Qsx.LpLex.value s).map fun (a, r, v) => (a, r, " " ++ ratToStr (v.getD 7)))
+      | "pbv" => pure ((Qsx.LpLex.possibleBoundValue s).map fun (a, r) => (a, r, ""))
+      | "ts" => do let a ← pNat; pure ((Qsx.LpLex.testSense s (a != 0)).map fun (a, r) => (a, r, ""))
+      | "sense" => pure ((Qsx.LpLex.readSense s).map fun (a, r) => (a, r, ""))
+      | "cst" => pure ((Qsx.LpLex.checkSubjectTo s).map fun (a, r) => (a, r, ""))
+      | _ => failure : P (Option (Qsx.LpLex.St × Int × String)))
+    if dead then out := out ++ ["lx OOB"] else
+    match r with
+    | some (s', rc, extra) => s := s'; out := out ++ [show_ s' rc extra]
+    | none => dead := true; out := out ++ ["lx OOB"]
   pure out
 
 /-- one protocol line ↦ answer lines (without the terminating ".") -/
@@ -620,6 +671,8 @@ def answer (cx : Ctx) (toks : List String) : Ctx × List String :=
     (cx, r.getD ["bad-op"])
   | "symtab" :: rest =>
     (cx, (symtabSession.run' rest).getD ["bad-op"])
+  | "lplex" :: rest =>
+    (cx, (lplexSession.run' rest).getD ["bad-op"])
   | "ratiod2" :: rest =>
     -- C03: ILLratio_dII_test on explicit columns: lvupper pivtol dftol n (zA dz cz vstat skip)*n
     let r : Option (List String) := (do
